@@ -1,6 +1,6 @@
 //! Running the real command-line tool: isolated environment, cwd inside the scratch dir, timeout,
 //! address-space limit, output captured through files (no pipe dead-locks).
-use std::os::unix::process::{CommandExt, ExitStatusExt};
+use std::os::unix::process::ExitStatusExt;
 use std::path::{Path, PathBuf};
 use std::process::{Command, Stdio};
 use std::time::{Duration, Instant};
@@ -9,6 +9,21 @@ use std::time::{Duration, Instant};
 pub fn scratch_tag() -> String {
     let t: String = format!("{:?}", std::thread::current().id()).chars().filter(|c| c.is_ascii_digit()).collect();
     format!("c20-t{t}")
+}
+
+/// Resource limits are put on the worker process itself and inherited by every tool process it
+/// starts (no `pre_exec`, so `Command` can use the cheap posix_spawn path): a malformed size field
+/// must not be able to take the machine down.
+pub fn limit_this_process() {
+    static ONCE: std::sync::Once = std::sync::Once::new();
+    ONCE.call_once(|| unsafe {
+        let lim = libc::rlimit { rlim_cur: 8 << 30, rlim_max: 8 << 30 };
+        libc::setrlimit(libc::RLIMIT_AS, &lim);
+        let core = libc::rlimit { rlim_cur: 0, rlim_max: 0 };
+        libc::setrlimit(libc::RLIMIT_CORE, &core);
+        let fsz = libc::rlimit { rlim_cur: 1 << 30, rlim_max: 1 << 30 };
+        libc::setrlimit(libc::RLIMIT_FSIZE, &fsz);
+    });
 }
 
 pub fn cli_path() -> PathBuf {
@@ -67,6 +82,7 @@ pub struct Runner {
 impl Runner {
     /// `root` is a directory inside a `vcore::Scratch`; cwd and HOME/XDG_* live under it.
     pub fn new(root: &Path, timeout_s: u64) -> Runner {
+        limit_this_process();
         let cwd = root.join("w");
         let home = root.join("home");
         for d in [&cwd, &home, &home.join("data"), &home.join("config"), &home.join("cache"), &home.join("state"), &root.join("tmp"), &root.join("io")] {
@@ -105,18 +121,6 @@ impl Runner {
             .stdin(Stdio::null())
             .stdout(Stdio::from(fo))
             .stderr(Stdio::from(fe));
-        unsafe {
-            c.pre_exec(|| {
-                // a malformed size field must not be able to take the machine down
-                let lim = libc::rlimit { rlim_cur: 8 << 30, rlim_max: 8 << 30 };
-                libc::setrlimit(libc::RLIMIT_AS, &lim);
-                let core = libc::rlimit { rlim_cur: 0, rlim_max: 0 };
-                libc::setrlimit(libc::RLIMIT_CORE, &core);
-                let fsz = libc::rlimit { rlim_cur: 1 << 30, rlim_max: 1 << 30 };
-                libc::setrlimit(libc::RLIMIT_FSIZE, &fsz);
-                Ok(())
-            });
-        }
         let t0 = Instant::now();
         let mut child = match c.spawn() {
             Ok(c) => c,
